@@ -101,9 +101,10 @@ CLAIMED = {
              "returns at max(call, t0+k*P), never early, exactly on the grid when called on time; overruns are caught up (lateness recurrence and bound); "
              "after free()/with-exit every wait returns at its call time and the handle is released exactly once; round-to-nearest period conversion over Q. "
              "__exit__ frees whatever leaves the with-block and never swallows. Tied to NotifierDelay by its methods regenerated from the source on every run (proved equal to create/wait/free), by "
-             "correspondence under the simulated HAL (exact microseconds; with-blocks left by end/break/return/exceptions) + exhaustive float sweep of round(P*1e6) for n in [1000, 2000000].",
-        note="Closed under the global context. The HAL notifier is modelled as 'a wait issued at t with alarm a returns at max(t,a)' (validated by the correspondence only); uint64 as unbounded Z; OS scheduling latency not modelled.",
-        technique="Coq proof (induction over schedules) + methods regenerated from the source (pytr) + correspondence under simulated HAL + exhaustive finite float sweep", design="6.8"),
+             "correspondence under the simulated HAL (exact microseconds; with-blocks left by end/break/return/exceptions). The float expression round(P*1e6) is proved exact in IEEE binary64 "
+             "(the kernel's primitive floats) for every whole number of microseconds in [1000, 2001000) (C16_period_in_microseconds_is_exact: a vm_compute sweep lifted to the quantified statement); the runtime sweep of the real constructor over the same range ties those floats to CPython's.",
+        note="Closed under the global context, except C16_period_in_microseconds_is_exact, whose Print Assumptions lists the kernel's primitive int/float operations it computes with (PrimInt63 / PrimFloat; not axioms of ours). The HAL notifier is modelled as 'a wait issued at t with alarm a returns at max(t,a)' (validated by the correspondence only); uint64 as unbounded Z; OS scheduling latency not modelled.",
+        technique="Coq proof (induction over schedules; finite PrimFloat sweep by vm_compute lifted to a theorem) + methods regenerated from the source (pytr) + correspondence under simulated HAL", design="6.8"),
     "C18": dict(
         text="Theorems (Coq over Q, unit chains of any depth with mutually inverse linear links): convert to the same unit is identity, there-and-back, "
              "composition a->b->c = a->c, linearity, exact application order; for the unit table regenerated from the module on every run: 100 cm/m, 0.3048 m/ft, "
